@@ -119,7 +119,7 @@ class IndividualAddress(BaseAddress):
     def __init__(self, address: IndividualAddressableType) -> None:
         """Initialize IndividualAddress class."""
         if isinstance(address, int):
-            self.raw = address
+            self.raw = int(address)  # bool is an int - `True` shall render as 1
         elif isinstance(address, IndividualAddress):
             self.raw = address.raw
         elif isinstance(address, str):
@@ -240,7 +240,7 @@ class GroupAddress(BaseAddress):
     def __init__(self, address: GroupAddressableType) -> None:
         """Initialize GroupAddress class."""
         if isinstance(address, int):
-            self.raw = address
+            self.raw = int(address)  # bool is an int - `True` shall render as 1
         elif isinstance(address, GroupAddress):
             self.raw = address.raw
         elif isinstance(address, str):
